@@ -6,7 +6,9 @@
 //!              positions of the 256-bit id (families: leading bytes, middle, bytes 15..31, last byte,
 //!              spread), so XOR order of the real ids equals XOR order of the logged model ids;
 //!  * "engine": join / add / fail / evict histories on `DhtCoreEngine` with closest-node answers
-//!              and storage targets (trust selection disabled).
+//!              and storage targets: trust selection disabled, and (every other segment) enabled with a real
+//!              `EigenTrustEngine` as the provider - the trust of every id as the provider reports it is logged
+//!              as a dense rank (order-preserving projection of the f64 values, the threshold included).
 //! The oracle is spec/Trace_Sideline.tla. Trusted base: the id embedding (decode re-checked by
 //! re-embedding), peer-index bookkeeping, `t as f64 / 1000.0` construction of trust values.
 use crate::common::{self, Args, Embed, Trace};
@@ -284,8 +286,37 @@ fn info(e: &Embed, id: u64, addr: &str) -> NodeInfo {
     NodeInfo { id: NodeId::from_bytes(e.embed(id)), address: addr.to_string(), last_seen: SystemTime::now(), capacity: NodeCapacity::default() }
 }
 
+fn adaptive_id(e: &Embed, x: u64) -> AdaptiveNodeId {
+    AdaptiveNodeId { hash: e.embed(x) }
+}
+
+/// Random statements and anchors on a real EigenTrustEngine over the model ids, then one trust computation
+/// (fills the cache that `TrustProvider::get_trust` reads).
+async fn stir_trust(te: &saorsa_core::EigenTrustEngine, e: &Embed, space: u64, rng: &mut impl Rng) {
+    for _ in 0..rng.gen_range(0..3 * space.min(24)) {
+        let (a, b) = (rng.gen_range(0..space), rng.gen_range(0..space));
+        te.update_local_trust(&adaptive_id(e, a), &adaptive_id(e, b), rng.gen_bool(0.8)).await;
+    }
+    if rng.gen_bool(0.3) {
+        te.add_pre_trusted(adaptive_id(e, rng.gen_range(0..space))).await;
+    }
+    let _ = te.compute_global_trust().await;
+}
+
+/// Dense ranks of the trust values of all ids together with the threshold (last element of the result).
+fn trust_ranks(vals: &[f64], thr: f64) -> (Vec<Value>, i64) {
+    let mut distinct: Vec<f64> = vals.iter().copied().filter(|v| !v.is_nan()).collect();
+    distinct.push(thr);
+    distinct.sort_by(|a, b| a.total_cmp(b));
+    distinct.dedup();
+    let rank = |v: f64| distinct.iter().position(|d| d.total_cmp(&v) == std::cmp::Ordering::Equal).unwrap_or(0) as i64;
+    let out = vals.iter().map(|v| if v.is_nan() { json!({"k":"nan","v":0}) } else if *v < 0.0 || *v > 1.0 { json!({"k":"val","v":-1 - rank(*v)}) } else { json!({"k":"val","v":rank(*v)}) }).collect();
+    (out, rank(thr))
+}
+
 async fn engine_segment(t: &mut Trace, rng: &mut impl Rng, seg: u64, ops: u64) {
     let bits: usize = [3, 4, 5, 6, 8][(seg % 5) as usize];
+    let with_trust = seg % 2 == 1 && bits <= 6;
     let e = Embed::new(bits, rng, seg % 3 == 2);
     let space = 1u64 << bits;
     let selfid = rng.gen_range(0..space);
@@ -298,8 +329,28 @@ async fn engine_segment(t: &mut Trace, rng: &mut impl Rng, seg: u64, ops: u64) {
     };
     t.ev(json!({"ev":"Reset","kind":"engine","self":selfid,"bits":bits,"pos":e.pos}));
     let mut last_removed: Option<u64> = None;
+    // a real EigenTrustEngine as the trust provider of the engine's storage selection
+    let mut te: Option<(Arc<saorsa_core::EigenTrustEngine>, TrustSelectionConfig, i64)> = None;
+    if with_trust {
+        let anchors: std::collections::HashSet<AdaptiveNodeId> = (0..rng.gen_range(1..=3)).map(|_| adaptive_id(&e, rng.gen_range(0..space))).collect();
+        let eng_t = Arc::new(saorsa_core::EigenTrustEngine::new(anchors));
+        stir_trust(&eng_t, &e, space, rng).await;
+        let (scfg, alpha) = if seg % 4 == 1 {
+            (TrustSelectionConfig::for_storage(), 500)
+        } else {
+            let alpha = [300i64, 500, 0, 1000][rng.gen_range(0..4)];
+            (TrustSelectionConfig { trust_weight: alpha as f64 / 1000.0, min_trust_threshold: [0.0, 0.01, 0.03, 0.1, 0.2][rng.gen_range(0..5)], exclude_untrusted: rng.gen_bool(0.7) }, alpha)
+        };
+        eng.enable_trust_selection_with_storage_config(eng_t.clone(), TrustSelectionConfig::for_queries(), scfg.clone());
+        te = Some((eng_t, scfg, alpha));
+    }
     for _ in 0..ops {
         let x = rng.gen_range(0..space);
+        if let Some((eng_t, _, _)) = &te
+            && rng.gen_bool(0.15)
+        {
+            stir_trust(eng_t, &e, space, rng).await;
+        }
         match rng.gen_range(0..10) {
             0..=4 => {
                 let r = eng.join_network(vec![info(&e, x, "verif-join")]).await;
@@ -369,15 +420,21 @@ async fn engine_segment(t: &mut Trace, rng: &mut impl Rng, seg: u64, ops: u64) {
                 Err(err) => t.ev(json!({"ev":"FindErr","via":"find_nodes","key":key,"n":n,"err":err.to_string()})),
             }
         }
-        // storage targets with trust selection disabled (K = 8)
-        if rng.gen_bool(0.5) {
+        // storage targets (K = 8): trust selection disabled, or enabled with the EigenTrustEngine above
+        if rng.gen_bool(0.5) || te.is_some() {
             let key = last_removed.filter(|_| rng.gen_bool(0.5)).unwrap_or_else(|| rng.gen_range(0..space));
             let k = DhtKey::from_bytes(e.embed(key));
             let enabled = eng.has_trust_selection();
             match eng.store(&k, vec![1, 2, 3]).await {
                 Ok(rc) => {
                     let a: Vec<i64> = rc.stored_at.iter().map(|id| e.decode(id.as_bytes())).collect();
-                    t.ev(json!({"ev":"Store","key":key,"n":8,"trustSel":enabled,"ans":a}));
+                    if let Some((eng_t, scfg, alpha)) = &te {
+                        let vals: Vec<f64> = (0..space).map(|x| eng_t.get_trust(&adaptive_id(&e, x))).collect();
+                        let (tr, thr) = trust_ranks(&vals, scfg.min_trust_threshold);
+                        t.ev(json!({"ev":"Store","key":key,"n":8,"trustSel":enabled,"ans":a,"tr":tr,"thr":thr,"excl":scfg.exclude_untrusted,"alpha":alpha}));
+                    } else {
+                        t.ev(json!({"ev":"Store","key":key,"n":8,"trustSel":enabled,"ans":a}));
+                    }
                 }
                 Err(err) => t.ev(json!({"ev":"FindErr","via":"store","key":key,"n":8,"err":err.to_string()})),
             }
